@@ -259,10 +259,13 @@ def _sets(draw, p):
 
 @st.composite
 def _hyp_case(draw):
-    kind = draw(st.sampled_from(["pdag", "pdag", "embedded", "weighted", "faithless", "weighted_embedded"]))
+    kind = draw(st.sampled_from(["pdag", "pdag", "embedded", "weighted", "faithless", "weighted_embedded", "wide"]))
     if kind == "pdag":
         A = draw(S.pdag(2, 7, weights=(3, 2, 2)))
         case = {"A": A, "dtype": draw(st.sampled_from(["int", "float", "uint8", "bool", "float32"]))}
+    elif kind == "wide":
+        A = draw(S.embedded_wide(draw(S.pdag(2, 7, weights=(3, 2, 2)))))
+        case = {"A": A, "dtype": draw(st.sampled_from(["int", "float", "uint8", "bool"]))}
     elif kind == "embedded":
         A = draw(S.embedded(draw(S.pdag(2, 6, weights=(3, 2, 2)))))
         case = {"A": A, "dtype": draw(st.sampled_from(["int", "float", "uint8", "bool", "float32"]))}
